@@ -1,2 +1,81 @@
-(* C08 — placeholder *)
-From HC Require Import Base.
+(* C08 — has() and contiguous_length are exact (pinned statements; proofs in BitfieldFacts.v,
+   ContigReplay.v, ContigBridge.v). All statements are for unbounded indices: any number of
+   32768-bit pages, ranges straddling any number of page edges.
+   Proved: (1) the bitfield after set_range / apply answers exactly the range semantics, so has(i) is
+   true exactly for the indices set and not cleared; (2) every page whose content changed is marked
+   dirty, and pages not marked dirty serialise to the same bytes, so a flush writes every changed page;
+   (3) page (de)serialisation is exact at every page index; (4) the contiguous-length hint maintained by
+   the crate's incremental rule is the smallest index not held, after every set/drop update, including
+   the termination of the skip loop within its fuel; (5) replaying the oplog entries of a crashed core over
+   ANY mixture of old and new bitfield pages yields the exact bitfield and the exact contiguous length.
+   Partial: that the disk really holds such a mixture after a crash (flush schedule) and that has() is false
+   beyond the length (no append ever sets a bit >= length) are established by the correspondence runs. *)
+From HC Require Import Base NMap Storage Bitfield Core BitfieldFacts ContigBridge.
+From HC Require ContigReplay.
+
+Theorem C08_has_after_update : forall b u i,
+  bf_get (bf_apply b u) i =
+  if (bu_start u <=? i) && (i <? bu_start u + bu_length u) then negb (bu_drop u) else bf_get b i.
+Proof. exact bf_get_apply. Qed.
+
+Theorem C08_has_after_set_range : forall b s l v i,
+  bf_get (bf_set_range b s l v) i = if (s <=? i) && (i <? s + l) then v else bf_get b i.
+Proof. exact bf_get_set_range. Qed.
+
+Theorem C08_changed_pages_are_dirty : forall b s l v i,
+  bf_get (bf_set_range b s l v) i <> bf_get b i -> In (i / PAGE_BITS) (bf_dirty (bf_set_range b s l v)).
+Proof. exact bf_dirty_set_range_sound. Qed.
+
+Theorem C08_clean_pages_unchanged : forall b s l v p,
+  ~ In p (bf_dirty (bf_set_range b s l v)) ->
+  page_bytes (bf_bits (bf_set_range b s l v)) p = page_bytes (bf_bits b) p.
+Proof. exact page_bytes_clean_set_range. Qed.
+
+Theorem C08_page_bytes_exact : forall m p j,
+  j < PAGE_BITS -> page_bit (page_bytes m p) j = nm_mem (p * PAGE_BITS + j) m.
+Proof. exact page_bit_page_bytes. Qed.
+
+Theorem C08_pages_reload_exactly : forall m n i,
+  nm_mem i (load_bits nm_empty 0 (concat (map (page_bytes m) (nrange 0 n))))
+  = (i <? N.of_nat n * PAGE_BITS) && nm_mem i m.
+Proof. exact load_page_bytes. Qed.
+
+Theorem C08_contiguous_length_exact : forall b u c,
+  exact_contig b c -> 0 < bu_length u ->
+  exact_contig (bf_apply b u) (update_contig c (bf_apply b u) u).
+Proof. exact update_contig_exact. Qed.
+
+Theorem C08_contiguous_length_unique : forall b c c', exact_contig b c -> exact_contig b c' -> c = c'.
+Proof. exact exact_contig_unique. Qed.
+
+Theorem C08_contiguous_initially : exact_contig bf_empty 0.
+Proof. exact exact_contig_empty. Qed.
+
+(* crash recovery: the model's replay loop (Core.replay_entries) over a disk bitfield d that is any
+   bit-wise mixture of the pre-crash memory bitfield b and its final value *)
+Theorem C08_replay_exact : forall cr tf es t d h t' b' h' b,
+  replay_entries cr tf (t, d, h) es = Ok (t', b', h') ->
+  drops_nonempty (updates_of es) ->
+  exact_contig b (hd_contig h) ->
+  (forall i, bf_get d i = bf_get b i \/ bf_get d i = bf_get (fold_left bf_apply (updates_of es) b) i) ->
+  (forall i, bf_get b' i = bf_get (fold_left bf_apply (updates_of es) b) i) /\ exact_contig b' (hd_contig h').
+Proof. exact replay_entries_contig_exact. Qed.
+
+(* non-vacuity *)
+Example C08_ex :
+  let b := bf_apply bf_empty (mkBfUpdate false 0 40000) in
+  let b2 := bf_apply b (mkBfUpdate true 32760 20) in
+  bf_get b2 32759 = true /\ bf_get b2 32768 = false /\ bf_get b2 32780 = true /\ bf_get b2 40000 = false /\
+  update_contig 40000 b2 (mkBfUpdate true 32760 20) = 32760.
+Proof. vm_compute. repeat split; reflexivity. Qed.
+
+Print Assumptions C08_has_after_update.
+Print Assumptions C08_has_after_set_range.
+Print Assumptions C08_changed_pages_are_dirty.
+Print Assumptions C08_clean_pages_unchanged.
+Print Assumptions C08_page_bytes_exact.
+Print Assumptions C08_pages_reload_exactly.
+Print Assumptions C08_contiguous_length_exact.
+Print Assumptions C08_contiguous_length_unique.
+Print Assumptions C08_contiguous_initially.
+Print Assumptions C08_replay_exact.
